@@ -80,6 +80,16 @@ def run_variant(v: dict, props: List[str], repo: str) -> Dict[str, Any]:
         shutil.rmtree(scratch, ignore_errors=True)
 
 
+def pooled_map(fn, items, workers: int = 16, chunk: int = 96):
+    """map over a process pool that is replaced every `chunk` items: the analysis keeps per-tree caches, and a worker
+    that has seen a few dozen scratch trees holds gigabytes (max_tasks_per_child deadlocks on this interpreter)"""
+    items = list(items)
+    for i in range(0, len(items), chunk):
+        part = items[i:i + chunk]
+        with cf.ProcessPoolExecutor(max_workers=min(workers, max(1, len(part)))) as ex:
+            yield from ex.map(fn, part)
+
+
 def run_for(prop: str, seed: int = 0) -> Dict[str, Any]:
     """self-test of one property's rules: every variant that names prop in 'expect' (fire) plus all benign ones."""
     repo = os.environ.get("FUNC_ADL_REPO", "/repo")
@@ -88,8 +98,8 @@ def run_for(prop: str, seed: int = 0) -> Dict[str, Any]:
 
     random.Random(seed).shuffle(vs)
     res = dict(seeded=0, detected=0, benign=0, silent=0, skipped=0, mismatches=[], details=[])
-    with cf.ProcessPoolExecutor(max_workers=min(16, max(1, len(vs)))) as ex:
-        for v, r in zip(vs, ex.map(_rv, [(v, [prop], repo) for v in vs])):
+    if True:
+        for v, r in zip(vs, pooled_map(_rv, [(v, [prop], repo) for v in vs])):
             if r["status"] == "skipped":
                 res["skipped"] += 1
                 continue
@@ -137,8 +147,8 @@ def main() -> int:
         vs = [v for v in vs if v["kind"] == a.kind]
     t0 = time.time()
     bad = 0
-    with cf.ProcessPoolExecutor(max_workers=16) as ex:
-        for v, r in zip(vs, ex.map(_rv, [(v, props, repo) for v in vs])):
+    if True:
+        for v, r in zip(vs, pooled_map(_rv, [(v, props, repo) for v in vs])):
             if r["status"] == "skipped":
                 print(f"{v['name']:28s} {v['kind']:7s} SKIPPED {r['why']}")
                 continue
